@@ -8,7 +8,7 @@ from vlib import scenario, record, agp_model
 LEVEL = "exploration"
 RULE = ("(a) full grid itersLimit in 1..5 x eps in {3,1.5,1,0.9,0.5,0.1,0.01} x N in 1..5 x 4 objectives; (b) eps set exactly "
         "equal to attainable Hoelder lengths pow(2^-j,1/N) (and one ulp either side); (c) seeded random scenarios over all objective "
-        "families with refinement on and off and pre-batched iterations. The stop point, the evaluation count and "
+        "families with refinement on and off and pre-batched iterations; (d) multi-step use: Solve, the user raises (or lowers) parameters.itersLimit, Solve again. The stop point, the evaluation count and "
         "the reported accuracy are recomputed from the authenticated trial log. Non-trivial: the run made >= 2 trials; "
         "distinct = distinct (N, eps, itersLimit, family, trial count, stop reason).")
 ASSUMPTIONS = ["Hoelder length of an interval is pow(x_r-x_l, 1/N) evaluated by libm pow on the same doubles the solver used",
@@ -52,6 +52,21 @@ def cases(tier, seed):
                         continue
                     out.append({"N": N, "lower": [0.0] * N, "upper": [1.0] * N, "box": "unit", "obj": _fit(obj, N), "r": 2.0,
                                 "eps": eps, "iters": 5000, "m": m, "refine": False, "grp": "equal", "j": j, "de": de})
+    nl = 60 if tier == "quick" else 600
+    for i in range(nl):
+        rng = scenario.rng_for(seed, "C03L", i)
+        scn = scenario.gen_scenario(rng, max_iters=60, refine=False)
+        scn["iters"] = int(rng.integers(2, 40))
+        scn["grp"] = "raise-limit"
+        l2 = scn["iters"] + int(rng.integers(1, 300))
+        pat = [["solve"], ["set", "itersLimit", l2], ["solve"]]
+        if rng.random() < 0.3:
+            l3 = l2 + int(rng.integers(1, 200))
+            pat += [["set", "itersLimit", l3], ["iter", int(rng.integers(1, 5))], ["solve"]]
+        if rng.random() < 0.2:
+            pat += [["set", "itersLimit", 1], ["solve"]]          # a lowered limit: nothing more may be evaluated
+        scn["pattern"] = pat
+        out.append(scn)
     n = 320 if tier == "quick" else 4000
     for i in range(n):
         rng = scenario.rng_for(seed, "C03", i)
@@ -74,15 +89,24 @@ def ulps(a, b):
 
 
 def run_case(scn):
-    t = record.run_solver(scn, listener=True)
+    marks = []
+    holder = {}
+
+    def after_step(n, step):
+        marks.append(holder["prob"].ng)
+
+    pattern = scn.get("pattern", [["solve"]])
+    lims = [s[2] for s in pattern if s[0] == "set" and s[1] == "itersLimit"]
+    prob, info = record.make_problem(scn, cap=max([scn["iters"]] + lims) + sum(s[1] for s in pattern if s[0] == "iter") + 8)
+    holder["prob"] = prob
+    t = record.run_solver(scn, listener=True, problem=prob, after_step=after_step)
     if t.fp_exhausted:
         return {"violations": [], "obs": {"fp_domain_exhausted": 1}, "skip": "fp-domain-exhausted"}
     viol = []
     obs = {"runs": 1}
-    N, eps, lim = scn["N"], scn["eps"], scn["iters"]
+    N, eps = scn["N"], scn["eps"]
     if t.aborted or t.budget_violation:
-        viol.append({"mech": "budget-runaway", "msg": "objective called more than itersLimit+8 times in the global phase",
-                     "calls": t.problem.ng})
+        viol.append({"mech": "budget-runaway", "msg": "objective called more than the limit + 8 times in the global phase", "calls": t.problem.ng})
     if t.swallowed:
         viol.append({"mech": "solve-internal-exception", "msg": "Solve printed 'Exception was thrown' on a fault-free objective",
                      "stdout": t.stdout[-300:]})
@@ -92,11 +116,8 @@ def run_case(scn):
     sol = t.solutions[-1]
     glog = [e for e in t.log if e["ph"] == "g"]
     T = len(glog)
-    B = sum(s[1] for s in scn.get("pattern", []) if s[0] == "iter")
     if sol.numberOfGlobalTrials != T:
         viol.append({"mech": "trial-count-mismatch", "reported": sol.numberOfGlobalTrials, "evaluations": T})
-    if T > max(lim, B):
-        viol.append({"mech": "budget-exceeded", "evaluations": T, "itersLimit": lim, "prebatched": B})
     xs, zs, problems = record.trial_sequence(t)
     for p in problems[:3]:
         viol.append({"mech": "trial-authentication", "msg": p})
@@ -106,8 +127,8 @@ def run_case(scn):
         viol.append({"mech": "trial-log-unusable", "msg": "trial sequence could not be replayed by the model", "detail": a["violations"][:2]})
         return {"violations": viol, "obs": obs}
 
-    def cond(k, strict_ulp):
-        """stop criterion after k trials; returns True / False / None (undecidable within 2 ulp)."""
+    def cond(k, lim, strict_ulp=2):
+        """stop criterion after k trials under limit lim; True / False / None (undecidable within 2 ulp)."""
         if k >= lim:
             return True
         sub = [L for L in lens[1:k] if L is not None]
@@ -117,26 +138,36 @@ def run_case(scn):
         if mn != eps and ulps(mn, eps) <= strict_ulp:
             return None
         return mn < eps
-    # never later: no k in [max(B,1), T) may already satisfy the criterion
-    start = max(B, 1)
+
+    # every Solve step is judged with the limit in force and the trials already made when it was called
+    lim = scn["iters"]
+    before = 0
     reason = None
-    for k in range(start, T):
-        c = cond(k, 2)
-        if c is True:
-            viol.append({"mech": "stopped-late", "msg": "stop criterion already held after %d trials but %d were made" % (k, T),
-                         "eps": eps, "itersLimit": lim, "min_len": min([L for L in lens[1:k] if L is not None] or [float('inf')])})
-            break
-    # never earlier: the criterion must hold at T
-    c = cond(T, 2)
-    if c is False:
-        viol.append({"mech": "stopped-early", "msg": "Solve stopped after %d trials but the stop criterion does not hold" % T,
-                     "eps": eps, "itersLimit": lim, "min_len": min([L for L in lens[1:T] if L is not None] or [float('inf')])})
+    nsolve = 0
+    for n, step in enumerate(pattern):
+        after = marks[n] if n < len(marks) else T
+        if step[0] == "set" and step[1] == "itersLimit":
+            lim = step[2]
+        elif step[0] == "solve":
+            nsolve += 1
+            B, Ts = before, after
+            if Ts > max(lim, B):
+                viol.append({"mech": "budget-exceeded", "evaluations": Ts, "itersLimit": lim, "made_before_this_solve": B, "step": n})
+            for k in range(max(B, 1), Ts):
+                if cond(k, lim) is True:
+                    viol.append({"mech": "stopped-late", "msg": "stop criterion already held after %d trials but Solve went on to %d" % (k, Ts),
+                                 "eps": eps, "itersLimit": lim, "step": n, "min_len": min([L for L in lens[1:k] if L is not None] or [float("inf")])})
+                    break
+            if cond(Ts, lim) is False:
+                viol.append({"mech": "stopped-early", "msg": "Solve stopped after %d trials but the stop criterion does not hold" % Ts,
+                             "eps": eps, "itersLimit": lim, "step": n, "min_len": min([L for L in lens[1:Ts] if L is not None] or [float("inf")])})
+            subs = [L for L in lens[1:Ts] if L is not None]
+            reason = "budget" if (Ts >= lim and not (subs and min(subs) < eps)) else "accuracy"
+            obs["stop_" + reason] = obs.get("stop_" + reason, 0) + 1
+            if B > 0 and Ts > B:
+                obs["solves_continuing_earlier_work"] = obs.get("solves_continuing_earlier_work", 0) + 1
+        before = after
     sub = [L for L in lens[1:T] if L is not None]
-    if T >= lim and not (sub and min(sub) < eps):
-        reason = "budget"
-    else:
-        reason = "accuracy"
-    # reported accuracy
     acc = float(sol.solutionAccuracy)
     if sub:
         exp = min(sub)
@@ -153,16 +184,15 @@ def run_case(scn):
         nl = len([e for e in t.log if e["ph"] == "l"])
         obs["refine_runs"] = 1
         obs["local_evals"] = nl
-    obs["stop_" + reason] = 1
     obs["trials"] = T
     obs["grp_" + scn.get("grp", "x")] = 1
-    key = "%d|%r|%d|%s|%d|%s" % (N, eps, lim, scn["obj"]["fam"], T, reason)
-    return {"violations": viol, "obs": obs, "nontrivial": T >= 2, "key": key if T >= 2 else None,
+    key = "%d|%r|%d|%s|%d|%s|%d" % (N, eps, scn["iters"], scn["obj"]["fam"], T, reason, len(pattern))
+    return {"violations": viol[:6], "obs": obs, "nontrivial": T >= 2, "key": key if T >= 2 else None,
             "sample": dict(scenario.short(scn), trials=T, reason=reason, accuracy=acc, grp=scn.get("grp"))}
 
 
 def finalize(obs, tier, stats):
-    miss = [k for k in ("stop_budget", "stop_accuracy", "equality_hit", "single_trial_runs", "refine_runs", "accuracy_checked") if not obs.get(k)]
+    miss = [k for k in ("stop_budget", "stop_accuracy", "equality_hit", "single_trial_runs", "refine_runs", "accuracy_checked", "solves_continuing_earlier_work", "grp_raise-limit") if not obs.get(k)]
     if miss:
         return "never observed: %s" % miss, {}
     if obs.get("equality_hit", 0) < 10:
